@@ -347,8 +347,8 @@ theorem maFilterStep_eq (m : MA ℝ) (x : ℝ) :
     Gen.maFilterStep (MA.toGen m) x = (MA.toGen (MA.step m x).1, (MA.step m x).2) := by
   have hc : ((m.pos : Int) + 1 = (m.n : Int)) ↔ (m.pos + 1 = m.n) := by
     constructor <;> intro h <;> omega
-  simp only [Gen.maFilterStep, MA.step, MA.toGen, arrGet_natCast, arrSet_natCast, sumR_eq, fn_ofNat, fn_ofInt, hc,
-    Nat.cast_zero, Int.cast_zero]
+  simp only [Gen.maFilterStep, MA.step, MA.toGen, Gen.zeroR, arrGet_natCast, arrSet_natCast, sumR_eq, fn_ofNat, fn_ofInt,
+    hc, Nat.cast_zero, Int.cast_zero]
   split_ifs <;> simp
 
 theorem maFilterStep_eq_ofGen (m : Gen.MAFilterState ℝ) (hn : 0 ≤ m.n) (hp : 0 ≤ m.pos) (x : ℝ) :
